@@ -1,4 +1,13 @@
-import TemporalModel.Model.Prim
-import TemporalModel.Model.Round
-import TemporalModel.Spec.Round
+-- Root of the proof library: every property module (each pulls in its model, spec and lemma files).
+import TemporalModel.Props.C01
+import TemporalModel.Props.C02
+import TemporalModel.Props.C03
+import TemporalModel.Props.C04
+import TemporalModel.Props.C05
+import TemporalModel.Props.C06
 import TemporalModel.Props.C07
+import TemporalModel.Props.C08
+import TemporalModel.Props.C09
+import TemporalModel.Props.C10
+import TemporalModel.Props.C17
+import TemporalModel.Props.C18
